@@ -252,6 +252,9 @@ Definition c01r_ok (c : repcase) : bool :=
   | KRep d rk op _ o =>
       match obs_grammar d, ro_res o with
       | Some g, POk out => forallb (fun v => wtb (g_decl g) (g_reg g) false (wt_fuel v) (TSym (d_start d)) v) (out_programs rk out)
+      (* an operation that does not return a program fails with the library's own error type (the constructor of the
+         representation / decider included); BadTape and OutOfFuel are artefacts of the harness *)
+      | Some g, PErr e => library_error e || err_eqb e BadTape || err_eqb e OutOfFuel
       | _, _ => true
       end
   end.
